@@ -508,8 +508,8 @@ impl ConfigActor {
         //self.config_db.del_config(&key).ok();
         self.tenant_index.remove_config(&key);
         self.listener.notify(key.clone());
-        self.subscriber.notify(key.clone());
-        self.subscriber.remove_config_key(key);
+        // the subscription outlives the value: a client that never un-listened must hear about the key being re-created
+        self.subscriber.notify(key);
         Ok(())
     }
 
